@@ -27,6 +27,10 @@ pub trait RElem: konst::iter::Step + Copy + PartialEq + PartialOrd + Debug + 'st
         let _ = (a, b);
         0
     }
+    /// `konst::for_range!{x in a..b => ..}` (integer types only)
+    fn for_range(_a: Self, _b: Self) -> Option<Vec<Self>> {
+        None
+    }
 }
 
 macro_rules! impl_relem_int {
@@ -61,6 +65,14 @@ macro_rules! impl_relem_int {
                     };
                     usize::try_from(d).unwrap_or(usize::MAX)
                 }
+            }
+            fn for_range(a: Self, b: Self) -> Option<Vec<Self>> {
+                let mut v = Vec::new();
+                konst::for_range! {x in a..b =>
+                    overrun(v.len());
+                    v.push(x);
+                }
+                Some(v)
             }
             fn pair_key(a: Self, b: Self) -> u64 {
                 if $small { ((a as u8 as u64) << 8) | (b as u8 as u64) } else { 0 }
@@ -463,6 +475,15 @@ where
             Err(m) => return Err(viol("unexpected-panic", step, format!("for_each! over {:?} panicked: {m}", s))),
         };
         ctx.cov.probe("for_each-on-range-value");
+        if !incl && ctx.wants("C09") {
+            match guard(|| T::for_range(a, b)) {
+                Err(m) => return Err(viol("unexpected-panic", step, format!("for_range! over {:?} panicked: {m}", s))),
+                Ok(Some(v)) if v != fwd => {
+                    return Err(viol("for_range-mismatch", step, format!("for_range! over {:?} yields {:?}, std yields {:?}", s, v, fwd)));
+                }
+                _ => {}
+            }
+        }
         if ctx.wants("C09") && (g1 != fwd || g2 != bwd || g3 != bwd) {
             return Err(viol(
                 "for_each-mismatch",
